@@ -265,4 +265,140 @@ theorem lshB_x0_y_spec (A1 A2 C1 C2 : List Nat) (h1 h2 : Nat)
     · rw [lu', pow_succ]; exact hf.1
     · rw [lu', pow_succ]; exact hf.2
 
+/-! ### butterfly_rshB with x = 0 -/
+
+theorem sint_bit_add (a h : Nat) (ha : a ≤ 1) (hh : h < B)
+    (t : -4611686018427387904 < sint h ∧ sint h < 4611686018427387904) : sint (ladd a h) = (a : Int) + sint h := by
+  have x := sint_bit a ha
+  rw [sint_ladd a h (by have := B_eq; omega) hh (by omega) (by omega), x]
+
+theorem sint_sub_bit (h b : Nat) (hb : b ≤ 1) (hh : h < B)
+    (t : -4611686018427387904 < sint h ∧ sint h < 4611686018427387904) : sint (lsub h b) = sint h - (b : Int) := by
+  have x := sint_bit b hb
+  rw [sint_lsub h b hh (by have := B_eq; omega) (by omega) (by omega), x]
+
+theorem sint_negbit_sub (b h : Nat) (hb : b ≤ 1) (hh : h < B)
+    (t : -4611686018427387904 < sint h ∧ sint h < 4611686018427387904) :
+    sint (lsub (lneg b) h) = -(b : Int) - sint h := by
+  have x := sint_lneg_bit b hb
+  rw [sint_lsub _ h (lneg_lt _) hh (by omega) (by omega), x]
+
+theorem rshB_x0_unfold (i1 i2 : List Nat) (y : Nat) (hy : y ≠ 0) :
+    butterfly_rshB i1 i2 0 y =
+      let limbs := i1.length - 1
+      let sd1 := sumdiff_n (sl i1 0 (limbs - y)) (sl i2 y limbs)
+      let sd2 := sumdiff_n (sl i1 (limbs - y) limbs) (sl i2 0 y)
+      (sd1.1 ++ addmod1 (sd2.2.1 ++ [lsub (top i1) (sd2.2.2 % 2)]) (ladd (sd1.2.2 / 2) (top i2)),
+       sd1.2.1 ++ addmod1 (sd2.1 ++ [ladd (sd2.2.2 / 2) (top i1)]) (lsub (lneg (sd1.2.2 % 2)) (top i2)), i1, i2) := by
+  unfold butterfly_rshB
+  simp only [hy, ↓reduceIte]
+
+theorem fits_rsh (P X a c v s : Int) (hX : X * (B : Int) ≤ P) (hX0 : 0 < X)
+    (ha1 : -(4611686018427387904 * P) ≤ a) (ha2 : a < 4611686018427387904 * P)
+    (hc0 : 0 ≤ c) (hc1 : c < X) (hv0 : 0 ≤ v) (hv1 : v < P)
+    (hs1 : -4611686018427387904 < s) (hs2 : s < 4611686018427387904) :
+    (-(P * (B : Int)) ≤ 2 * (a + (c - v + X * s)) ∧ 2 * (a + (c - v + X * s)) < P * (B : Int)) ∧
+    (-(P * (B : Int)) ≤ 2 * (a - (c - v + X * s)) ∧ 2 * (a - (c - v + X * s)) < P * (B : Int)) := by
+  rw [BZ_eq] at *
+  have h1 : X * (-4611686018427387903) ≤ X * s := mul_le_mul_of_nonneg_left (by omega) (le_of_lt hX0)
+  have h2 : X * s ≤ X * 4611686018427387903 := mul_le_mul_of_nonneg_left (by omega) (le_of_lt hX0)
+  refine ⟨⟨?_, ?_⟩, ?_, ?_⟩ <;> linarith
+
+/-- butterfly_rshB.c:47-54 (x = 0, y > 0): t = i1 + i2/B^y, u = i1 - i2/B^y, with
+    i2/B^y ≡ W = C2 - B^m·C1 + B^m·h2 for i2 = C1 ++ C2 ++ [h2], |C1| = y, |C2| = m -/
+theorem rshB_x0_y_spec (A1 A2 C1 C2 : List Nat) (h1 h2 : Nat)
+    (hA : Limbs (A1 ++ A2 ++ [h1])) (hC : Limbs (C1 ++ C2 ++ [h2]))
+    (hl1 : A1.length = C2.length) (hl2 : A2.length = C1.length) (hy : 1 ≤ A2.length)
+    (t1 : TopSmall (A1 ++ A2 ++ [h1])) (t2 : TopSmall (C1 ++ C2 ++ [h2])) :
+    ∃ ts tg us ug, butterfly_rshB (A1 ++ A2 ++ [h1]) (C1 ++ C2 ++ [h2]) 0 A2.length =
+        (ts ++ [tg], us ++ [ug], A1 ++ A2 ++ [h1], C1 ++ C2 ++ [h2]) ∧
+      ts.length = A1.length + A2.length ∧ us.length = A1.length + A2.length ∧
+      Limbs (ts ++ [tg]) ∧ Limbs (us ++ [ug]) ∧
+      rval (ts ++ [tg]) = rval (A1 ++ A2 ++ [h1]) +
+        ((val C2 : Int) - (B : Int) ^ A1.length * val C1 + (B : Int) ^ A1.length * sint h2) ∧
+      rval (us ++ [ug]) = rval (A1 ++ A2 ++ [h1]) -
+        ((val C2 : Int) - (B : Int) ^ A1.length * val C1 + (B : Int) ^ A1.length * sint h2) := by
+  have ⟨hA12, hh1⟩ := Limbs_snoc.mp hA
+  have ⟨hC12, hh2⟩ := Limbs_snoc.mp hC
+  have ⟨hA1, hA2⟩ := Limbs_append.mp hA12
+  have ⟨hC1, hC2⟩ := Limbs_append.mp hC12
+  have bA := topSmall_rval _ _ hA t1
+  unfold TopSmall at t1 t2; simp only [top_snoc] at t1 t2
+  rw [rshB_x0_unfold _ _ _ (by omega)]
+  have hlen : (A1 ++ A2 ++ [h1]).length - 1 = A1.length + A2.length := by simp
+  simp only [hlen, Nat.add_sub_cancel, top_snoc]
+  have e1 : sl (A1 ++ A2 ++ [h1]) 0 A1.length = A1 := by rw [List.append_assoc]; exact sl_prefix _ _
+  have e2 : sl (C1 ++ C2 ++ [h2]) A2.length (A1.length + A2.length) = C2 := by
+    rw [hl1, hl2, Nat.add_comm]; exact sl_mid _ _ _
+  have e3 : sl (A1 ++ A2 ++ [h1]) A1.length (A1.length + A2.length) = A2 := sl_mid _ _ _
+  have e4 : sl (C1 ++ C2 ++ [h2]) 0 A2.length = C1 := by rw [List.append_assoc, hl2]; exact sl_prefix _ _
+  rw [e1, e2, e3, e4]
+  obtain ⟨sa1, sd1, ca1, cb1, la1, ld1, na1, nd1⟩ := sumdiff_spec A1 C2 hA1 hC2 hl1
+  obtain ⟨sa2, sd2, ca2, cb2, la2, ld2, na2, nd2⟩ := sumdiff_spec A2 C1 hA2 hC1 hl2
+  generalize (sumdiff_n A1 C2).2.2 / 2 = a1 at *
+  generalize (sumdiff_n A1 C2).2.2 % 2 = b1 at *
+  generalize (sumdiff_n A2 C1).2.2 / 2 = a2 at *
+  generalize (sumdiff_n A2 C1).2.2 % 2 = b2 at *
+  generalize (sumdiff_n A1 C2).1 = tt1 at *
+  generalize (sumdiff_n A1 C2).2.1 = u1 at *
+  generalize (sumdiff_n A2 C1).1 = u2 at *
+  generalize (sumdiff_n A2 C1).2.1 = tt2 at *
+  have s_tt := sint_sub_bit h1 b2 cb2 hh1 t1
+  have s_ut := sint_bit_add a2 h1 ca2 hh1 t1
+  have s_ct := sint_bit_add a1 h2 ca1 hh2 t2
+  have s_cu := sint_negbit_sub b1 h2 cb1 hh2 t2
+  have hlt : Limbs (tt2 ++ [lsub h1 b2]) := Limbs_snoc.mpr ⟨ld2, lsub_lt _ _⟩
+  have hlu : Limbs (u2 ++ [ladd a2 h1]) := Limbs_snoc.mpr ⟨la2, ladd_lt _ _⟩
+  obtain ⟨⟨k1, hk1⟩, tl, tn⟩ := addmod1_spec' (tt2 ++ [lsub h1 b2]) _ hlt (by simp) (ladd_lt a1 h2)
+  obtain ⟨⟨k2, hk2⟩, ul, un⟩ := addmod1_spec' (u2 ++ [ladd a2 h1]) _ hlu (by simp) (lsub_lt (lneg b1) h2)
+  rw [s_ct] at hk1; rw [s_cu] at hk2
+  have sp_t := limb_split (lsub h1 b2)
+  have sp_u := limb_split (ladd a2 h1)
+  rw [s_tt] at sp_t; rw [s_ut] at sp_u
+  generalize addmod1 (tt2 ++ [lsub h1 b2]) (ladd a1 h2) = twin at *
+  generalize addmod1 (u2 ++ [ladd a2 h1]) (lsub (lneg b1) h2) = uwin at *
+  simp only [List.length_append, List.length_cons, List.length_nil] at tn un na1 nd1 na2 nd2
+  obtain ⟨ts, tg, et, lt'⟩ := exists_snoc (tt1 ++ twin) (A1.length + A2.length) (by simp [na1, tn, nd2]; omega)
+  obtain ⟨us, ug, eu, lu'⟩ := exists_snoc (u1 ++ uwin) (A1.length + A2.length) (by simp [nd1, un, na2]; omega)
+  have hLt : Limbs (ts ++ [tg]) := et ▸ Limbs_append.mpr ⟨la1, tl⟩
+  have hLu : Limbs (us ++ [ug]) := eu ▸ Limbs_append.mpr ⟨ld1, ul⟩
+  refine ⟨ts, tg, us, ug, by rw [et, eu], lt', lu', hLt, hLu, ?_, ?_⟩
+  all_goals
+    have sa1' := congrArg (fun z : Nat => (z : Int)) sa1
+    have sd1' := congrArg (fun z : Nat => (z : Int)) sd1
+    have sa2' := congrArg (fun z : Nat => (z : Int)) sa2
+    have sd2' := congrArg (fun z : Nat => (z : Int)) sd2
+    simp only [List.length_append, List.length_cons, List.length_nil, val_append, val_cons, val_nil, na2, nd2] at hk1 hk2
+    push_cast at sa1' sd1' sa2' sd2' hk1 hk2
+    have hC1v := valZ_lt _ hC1
+    have hC2v := valZ_lt _ hC2
+    rw [← hl1] at hC2v; rw [← hl2] at hC1v
+    have hX := BZpow_pos A1.length
+    have hPX : (B : Int) ^ (A1.length + A2.length) = (B : Int) ^ A1.length * (B : Int) ^ A2.length := by
+      rw [← pow_add]
+    have hBL := B_le_pow A2.length hy
+    have p0C1 : (0 : Int) ≤ val C1 := by positivity
+    have p0C2 : (0 : Int) ≤ val C2 := by positivity
+    have hlen2 : (A1 ++ A2).length = A1.length + A2.length := by simp
+    rw [hlen2] at bA
+    have hf := fits_rsh ((B : Int) ^ (A1.length + A2.length)) ((B : Int) ^ A1.length)
+      (rval (A1 ++ A2 ++ [h1])) (val C2) ((B : Int) ^ A1.length * val C1) (sint h2)
+      (by rw [hPX]; exact mul_le_mul_of_nonneg_left hBL (le_of_lt hX)) hX bA.1 bA.2 p0C2 hC2v
+      (mul_nonneg (le_of_lt hX) p0C1) (by rw [hPX]; exact mul_lt_mul_of_pos_left hC1v hX) t2.1 t2.2
+    have hra : rval (A1 ++ A2 ++ [h1]) = (val A1 : Int) + (B : Int) ^ A1.length * val A2 +
+        (B : Int) ^ A1.length * (B : Int) ^ A2.length * sint h1 := by
+      rw [rval_snoc, val_append, hlen2, hPX]; push_cast; ring
+  · apply rval_of_eq ts tg hLt _ ((if lsub h1 b2 < B / 2 then 0 else 1) + k1)
+    · rw [← et, lt', val_append, na1, hra]; push_cast
+      linear_combination sa1' + (B : Int) ^ A1.length * hk1 + (B : Int) ^ A1.length * sd2' +
+        ((B : Int) ^ A1.length * (B : Int) ^ A2.length) * sp_t
+    · rw [lt', pow_succ]; exact hf.1.1
+    · rw [lt', pow_succ]; exact hf.1.2
+  · apply rval_of_eq us ug hLu _ ((if ladd a2 h1 < B / 2 then 0 else 1) + k2)
+    · rw [← eu, lu', val_append, nd1, hra]; push_cast
+      linear_combination sd1' + (B : Int) ^ A1.length * hk2 + (B : Int) ^ A1.length * sa2' +
+        ((B : Int) ^ A1.length * (B : Int) ^ A2.length) * sp_u
+    · rw [lu', pow_succ]; exact hf.2.1
+    · rw [lu', pow_succ]; exact hf.2.2
+
 end Mpir.Fft
